@@ -3,6 +3,7 @@ package rules
 import (
 	"fmt"
 	"go/token"
+	"go/types"
 	"sort"
 	"strings"
 
@@ -22,6 +23,7 @@ func init() {
 }
 
 func runC02(p *load.Program, r *oblig.Report) {
+	c02NullLengths(p, r)
 	c02Run(p, r)
 	c02Read(p, r)
 	c02Initialize(p, r)
@@ -539,8 +541,9 @@ func c02MessageReader(p *load.Program, r *oblig.Report) {
 	r.Check(okDisc && okReads, rule, "kafka.(*messageSetReader).readMessageV1 discards records below the requested offset and returns the others", p.Pos(v1.Pos()), "offset < min → discard key and value; else read key and value (offset = header offset + base)", fmt.Sprintf("discards=%v reads=%v", disc, reads))
 }
 
-func c02Reader(p *load.Program, r *oblig.Report) {
-	const rule = "C02.R7 Reader position"
+func c02Reader(p *load.Program, r *oblig.Report) { c02ReaderAs(p, r, "C02.R7 Reader position") }
+
+func c02ReaderAs(p *load.Program, r *oblig.Report, rule string) {
 	fm := p.Func("", "(*Reader).FetchMessage")
 	so := p.Func("", "(*Reader).SetOffset")
 	rb := p.Func("", "(*Conn).ReadBatchWith")
@@ -581,6 +584,36 @@ func c02Reader(p *load.Program, r *oblig.Report) {
 			}
 		}
 	})
+	// the version the filter compares with is read after the fetchers were (lazily) started in the same critical
+	// section: a snapshot taken before r.start() would be one behind
+	okSnap := true
+	nSnap := 0
+	an.EachInstr(fm, func(ins ssa.Instruction) {
+		ld, ok := ins.(*ssa.UnOp)
+		if !ok || !isLoadOfField(ld, "Reader", "version") {
+			return
+		}
+		// only the load that feeds the filter / the offset update
+		used := false
+		for _, b := range an.Blocks(fm) {
+			_, ci := an.IfCond(b)
+			if ci == nil {
+				continue
+			}
+			if (an.Unwrap(ci.X) == ssa.Value(ld) || an.Unwrap(ci.Y) == ssa.Value(ld)) && (strings.HasSuffix(clean(an.Shape(ci.X)), ".version") && strings.Contains(clean(an.Shape(ci.X)), "#") || strings.HasSuffix(clean(an.Shape(ci.Y)), ".version") && strings.Contains(clean(an.Shape(ci.Y)), "#")) {
+				used = true
+			}
+		}
+		if !used {
+			return
+		}
+		nSnap++
+		q := an.PathQuery{Fn: fm, Stop: func(i ssa.Instruction) bool { return isMutexOp(i, "mutex", true) }, Target: func(i ssa.Instruction) bool { return calleeName(i) == "start" }}
+		if q.ReachableFrom(an.PointOf(ld)) != nil {
+			okSnap = false
+		}
+	})
+	r.Check(okSnap && nSnap >= 1, rule, "kafka.(*Reader).FetchMessage snapshots r.version after the lazy start of the fetchers", p.Pos(fm.Pos()), "version := r.version follows r.start(…) inside the critical section", fmt.Sprintf("snapshots=%d startAfterSnapshot=%v", nSnap, !okSnap))
 	r.Check(okFilter, rule, "kafka.(*Reader).FetchMessage drops messages produced by readers of an older version", p.Pos(fm.Pos()), "return m.message only if m.version >= version", "not recognised")
 	// SetOffset
 	okSet, okRestart := false, false
@@ -659,4 +692,127 @@ func c02Reader(p *load.Program, r *oblig.Report) {
 		}
 		return "-"
 	}()))
+}
+
+// c02NullLengths: the hand-written reader passes the wire length of a key, value or string to a callback; the length
+// is -1 for null. Every function used as such a callback must not use the length as a count unless it was tested to
+// be non-negative (in the callback or in the helper it forwards the length to).
+func c02NullLengths(p *load.Program, r *oblig.Report) {
+	const rule = "C02.R8 null lengths are handled by every length callback"
+	root := p.SSAPkg("")
+	if root == nil {
+		r.Lost(rule, "root package")
+		return
+	}
+	isCallbackSig := func(sig *types.Signature) bool {
+		if sig.Params().Len() != 3 || sig.Results().Len() != 2 {
+			return false
+		}
+		t0 := sig.Params().At(0).Type().String()
+		return strings.HasSuffix(t0, "bufio.Reader") && sig.Params().At(1).Type().String() == "int" && sig.Params().At(2).Type().String() == "int" && sig.Results().At(0).Type().String() == "int"
+	}
+	var guarded func(pv ssa.Value, at ssa.Instruction) bool
+	guarded = func(pv ssa.Value, at ssa.Instruction) bool {
+		for d, child := at.Block().Idom(), at.Block(); d != nil; d, child = d.Idom(), d {
+			_, ci := an.IfCond(d)
+			if ci == nil || an.Unwrap(ci.X) != pv {
+				continue
+			}
+			k, isK := an.ConstInt(ci.Y)
+			if !isK || (k != 0 && k != -1) {
+				continue
+			}
+			edge := -1
+			switch {
+			case ci.Op == token.LSS && k == 0, ci.Op == token.LEQ && k == 0, ci.Op == token.LEQ && k == -1, ci.Op == token.EQL && k == -1:
+				edge = 1 // the not-negative side is the false edge
+			case ci.Op == token.GEQ && k == 0, ci.Op == token.GTR && k == 0, ci.Op == token.GTR && k == -1, ci.Op == token.NEQ && k == -1:
+				edge = 0
+			}
+			if edge < 0 {
+				continue
+			}
+			if ci.Neg {
+				edge = 1 - edge
+			}
+			if edgeControls(d, edge, child) {
+				return true
+			}
+		}
+		return false
+	}
+	var handles func(fn *ssa.Function, idx int, depth int) (bool, string)
+	handles = func(fn *ssa.Function, idx int, depth int) (bool, string) {
+		if depth > 3 || fn.Blocks == nil || idx >= len(fn.Params) {
+			return false, "cannot follow the length into " + an.ShortFunc(fn)
+		}
+		pv := fn.Params[idx]
+		for _, u := range *pv.Referrers() {
+			switch x := u.(type) {
+			case *ssa.DebugRef:
+				continue
+			case *ssa.BinOp:
+				switch x.Op {
+				case token.LSS, token.LEQ, token.GTR, token.GEQ, token.EQL, token.NEQ:
+					continue
+				}
+			}
+			if guarded(pv, u) {
+				continue
+			}
+			if c, ok := u.(*ssa.Call); ok {
+				if g := c.Call.StaticCallee(); g != nil && load.InModule(g) {
+					okAll := true
+					why := ""
+					for j, a := range c.Call.Args {
+						if a == ssa.Value(pv) {
+							if ok2, w := handles(g, j, depth+1); !ok2 {
+								okAll, why = false, w
+							}
+						}
+					}
+					if okAll {
+						continue
+					}
+					return false, why
+				}
+			}
+			return false, "the length is used at " + p.Pos(u.Pos()) + " in " + an.ShortFunc(fn) + " without a test for a negative (null) length"
+		}
+		return true, ""
+	}
+	n := 0
+	seen := map[*ssa.Function]bool{}
+	for _, fn := range p.ModuleFunctions() {
+		top := fn
+		for top.Parent() != nil {
+			top = top.Parent()
+		}
+		if top.Pkg != root {
+			continue
+		}
+		an.EachInstr(fn, func(ins ssa.Instruction) {
+			ci, ok := ins.(ssa.CallInstruction)
+			if !ok {
+				return
+			}
+			for _, a := range ci.Common().Args {
+				var cb *ssa.Function
+				switch v := a.(type) {
+				case *ssa.MakeClosure:
+					cb, _ = v.Fn.(*ssa.Function)
+				case *ssa.Function:
+					cb = v
+				}
+				if cb == nil || seen[cb] || !isCallbackSig(cb.Signature) {
+					continue
+				}
+				seen[cb] = true
+				n++
+				ok2, why := handles(cb, len(cb.Params)-1, 0)
+				r.Check(ok2, rule, an.ShortFunc(cb)+" (passed as a length callback in "+an.ShortFunc(fn)+")", p.Pos(ins.Pos()), "every use of the length as a count is under a non-negative test", why)
+			}
+		})
+	}
+	r.RequireCount(rule, n, 8)
 }
